@@ -56,7 +56,7 @@ Proof.
   assert (Hread : forall enc rest, enc_nlri p n = Ok enc -> read_struct k (enc ++ rest) = Some (canon_struct n, rest)).
   { intros enc rest He. apply (read_struct_enc p k n false enc rest pid Hs He). }
   destruct Hs as [Hpid Hs]. cbn [fst snd] in *.
-  destruct k as [v6 vpn | | | | v6m]; destruct n as [ | | | | | | v6' rd comps | r | e | d c ep | m | lsv | b]; try contradiction.
+  destruct k as [v6 vpn | | | | v6m | ]; destruct n as [ | | | | | | v6' rd comps | r | e | d c ep | m | lsv | b]; try contradiction.
   - destruct Hs as [-> [Hrd [Hwf Hsz]]]. destruct (enc_fcomps_canon v6 comps Hwf) as [He [Hw Hi]].
     cbn [canon_struct]. split; [|split; [rewrite Hi; reflexivity | split; [cbn [enc_nlri]; rewrite He; reflexivity | exact Hread]]].
     split; [exact Hpid|]. cbn [snd structured]. rewrite He. repeat split; assumption.
@@ -76,4 +76,5 @@ Proof.
       split; [rewrite sig_octets_idem by exact Ha; reflexivity|].
       split; [cbn [enc_nlri]; unfold enc_mup; rewrite Hp; reflexivity | exact Hread].
     + split; [split; assumption|]. repeat split; try reflexivity. exact Hread.
+  - cbn [canon_struct]. split; [split; assumption|]. repeat split; try reflexivity. exact Hread.
 Qed.
